@@ -341,8 +341,10 @@ def _one_store_per_statement(ctx, ff, flow, lp, q, rule="C07.5"):
                 if isinstance(cmp_.comparators[0], ast.Name):
                     lt = flow.text(cmp_.left)
                     # the branch taken when the outer key is KNOWN must extend the existing entry, the other must create it
-                    if s.test is cmp_ and s.orelse:
-                        known, fresh = (s.body, s.orelse) if isinstance(cmp_.ops[0], ast.In) else (s.orelse, s.body)
+                    neg = isinstance(s.test, ast.UnaryOp) and isinstance(s.test.op, ast.Not) and s.test.operand is cmp_
+                    if (s.test is cmp_ or neg) and s.orelse:
+                        positive = isinstance(cmp_.ops[0], ast.In) != neg
+                        known, fresh = (s.body, s.orelse) if positive else (s.orelse, s.body)
 
                         def creates(block):
                             return any(isinstance(x, ast.Assign) and isinstance(x.targets[0], ast.Subscript) and txt(x.targets[0].value) == txt(cmp_.comparators[0])
